@@ -74,7 +74,10 @@ static void dom_run(int r, int bcstep, int istep, U64Vec *out) {
         for (int x = 0; x < 7; x++)
             for (int y = 0; y < 7; y++)
                 for (int z = 0; z < 7; z++)
-                    for (int i = 0; i < r; i += istep) {
+                    for (int i = 0; i < r; i++) {
+                        // thinned families keep the run splits that are multiples of istep plus the two extreme ones (one leading digit then a
+                        // run: the centre chain below a coarse cell; a run then two digits)
+                        if (i % istep && i != 1 && i != r - 2) continue;
                         int d[15];
                         for (int k = 0; k < r - 1; k++) d[k] = k < i ? x : y;
                         d[r - 1] = z;
